@@ -570,6 +570,36 @@ Definition spec_mean (durs : list N) (s : N) : N :=
   let c := s * N.of_nat (length durs) in
   if c =? 0 then 0 else sum_list durs / c.
 
+(** * The counts a printed throughput cell may be based on
+    (the counter figure of a column is that of a sample that supplied the
+    column's time; tied samples leave a choice) *)
+
+(** Counts of the samples whose duration is [d]. *)
+Definition counts_with_duration (durs counts : list N) (d : N) : list N :=
+  map snd (filter (fun p => fst p =? d) (combine durs counts)).
+
+(** Even number of samples: averages over two different samples with the two
+    middle durations. *)
+Definition counts_of_middle_pair (durs counts : list N) : list N :=
+  let ix := combine (indexed durs) counts in
+  let lo := mid_lo durs in
+  let hi := mid_hi durs in
+  flat_map (fun p1 =>
+    if snd (fst p1) =? lo then
+      flat_map (fun p2 =>
+        if negb (fst (fst p1) =? fst (fst p2)) && (snd (fst p2) =? hi)
+        then [(snd p1 + snd p2) / 2] else []) ix
+    else []) ix.
+
+(** Admissible per-iteration counts under fastest, slowest, median, mean for a
+    per-input counter with one stored count per sample. *)
+Definition column_counts_spec (durs counts : list N) : list (list N) :=
+  [ counts_with_duration durs counts (list_min durs);
+    counts_with_duration durs counts (list_max durs);
+    (if Nat.even (length durs) then counts_of_middle_pair durs counts
+     else counts_with_duration durs counts (mid_hi durs));
+    (match counts with [] => [] | _ => [sum_list counts / N.of_nat (length counts)] end) ].
+
 (** The ten allocation figures of a sample index (0 everywhere when no
     allocation info was recorded for it): max_count, max_size, then
     (count, size) of grow, shrink, alloc, dealloc. *)
